@@ -82,6 +82,8 @@ type Msg struct {
 	To        []int // recipient node indices (self excluded)
 	ToOld     bool
 	ToBoth    bool
+	Unresolved int // entries of the To list that match no party of the addressed committee
+	RawToLen  int
 	Raw       tss.Message `json:"-"`
 }
 
@@ -151,6 +153,27 @@ func makeIDs(keys []*big.Int, order []int, prefix string) tss.SortedPartyIDs {
 
 // New builds the parties (constructors only; nothing is started).
 func New(cfg Config) (*Network, error) {
+	// the caller-held key data of this network is private to it: resharing erases Xi in place
+	if cfg.EcKeys != nil {
+		cp := make([]eckg.LocalPartySaveData, len(cfg.EcKeys))
+		for i := range cfg.EcKeys {
+			cp[i] = cfg.EcKeys[i]
+			if cp[i].Xi != nil {
+				cp[i].Xi = new(big.Int).Set(cfg.EcKeys[i].Xi)
+			}
+		}
+		cfg.EcKeys = cp
+	}
+	if cfg.EdKeys != nil {
+		cp := make([]edkg.LocalPartySaveData, len(cfg.EdKeys))
+		for i := range cfg.EdKeys {
+			cp[i] = cfg.EdKeys[i]
+			if cp[i].Xi != nil {
+				cp[i].Xi = new(big.Int).Set(cfg.EdKeys[i].Xi)
+			}
+		}
+		cfg.EdKeys = cp
+	}
 	nw := &Network{Cfg: cfg}
 	ec := cfg.Proto.Curve()
 	mk := func(idx int, role string, id *tss.PartyID) *Node {
@@ -400,9 +423,9 @@ func (nw *Network) collect(n *Node) (newMsgs []*Msg) {
 				n.Panics = append(n.Panics, "WireBytes error: "+err.Error())
 				continue
 			}
-			to, _ := nw.recipients(n, m)
+			to, unres := nw.recipients(n, m)
 			mm := &Msg{Sender: n.Idx, Seq: len(n.Emitted), Type: shortType(m.Type()), Bytes: bz, Broadcast: m.IsBroadcast(),
-				ToNil: m.GetTo() == nil, To: to, ToOld: m.IsToOldCommittee(), ToBoth: m.IsToOldAndNewCommittees(), Raw: m}
+				ToNil: m.GetTo() == nil, To: to, ToOld: m.IsToOldCommittee(), ToBoth: m.IsToOldAndNewCommittees(), Raw: m, Unresolved: unres, RawToLen: len(m.GetTo())}
 			n.Emitted = append(n.Emitted, mm)
 			newMsgs = append(newMsgs, mm)
 			continue
